@@ -722,6 +722,23 @@ class _NXP:
         self._note("zeros_like")
         return SymBlock(x.shape, dtype or x.dtype, (lambda loc: ("<value>", (0,))), "zeros")
 
+    @property
+    def linalg(self):
+        nxp = self
+
+        class _Linalg:
+            @staticmethod
+            def qr(a, mode="reduced"):
+                """numpy.linalg.qr, mode='reduced', of an (m, n) block: Q is (m, k), R is (k, n), k = min(m, n)"""
+                nxp._note("linalg.qr (shapes)")
+                if a.ndim != 2:
+                    raise Unsupported("linalg.qr contract: rank != 2")
+                m, n = a.shape
+                k = m if nxp._interp().truth(m <= n) else n
+                return (SymBlock((m, k), a.dtype, None, "Q"), SymBlock((k, n), a.dtype, None, "R"))
+
+        return _Linalg()
+
     def __array_namespace_info__(self):
         class _Info:
             def default_dtypes(self, device=None):
